@@ -737,8 +737,15 @@ func (x *Xlat) appendSlice(st *State, s, o *Term, et types.Type) *Term {
 			And(Not(inPlace), Eq(SArr(t), a)))
 	})
 	x.set(st, arrAllocKey, Ite(inPlace, al, Sto(al, a, TTrue)))
-	res := Ite(inPlace, MkSlice(SArr(s), SOff(s), total, SCap(s)), MkSlice(a, IntLit(0), total, newcap))
-	return x.ctx.Define("app", res)
+	res := x.ctx.Define("app", Ite(inPlace, MkSlice(SArr(s), SOff(s), total, SCap(s)), MkSlice(a, IntLit(0), total, newcap)))
+	// derived facts over at(), implied by the array-level definition above (cf. appendOne)
+	h2 := x.get(st, key, elemsSort(es))
+	lhs := x.atTerm(h2, res, i, es)
+	st.assume(Forall([]Bind{{"i!", SInt}}, Imp(And(App("<=", SBool, IntLit(0), i), App("<", SBool, i, SLen(s))), Eq(lhs, x.atTerm(h, s, i, es))), []*Term{lhs}))
+	st.assume(Forall([]Bind{{"i!", SInt}}, Imp(And(App("<=", SBool, SLen(s), i), App("<", SBool, i, total)), Eq(lhs, x.atTerm(h, o, App("-", SInt, i, SLen(s)), es))), []*Term{lhs}))
+	src := x.atTerm(h, o, i, es)
+	st.assume(Forall([]Bind{{"i!", SInt}}, Imp(And(App("<=", SBool, IntLit(0), i), App("<", SBool, i, SLen(o))), Eq(x.atTerm(h2, res, App("+", SInt, SLen(s), i), es), src)), []*Term{src}))
+	return res
 }
 
 func (x *Xlat) copyElems(st *State, dst, src, n *Term, et types.Type) {
